@@ -118,14 +118,14 @@ def sc_replay_edges(chk, exe, edges, phases, mode='sc'):
             continue
         for e, st in zip(seq, steps):
             nsteps += 1
-            want = sc_state(e['to']) + [v_model_to_real(e['reading'], INV_MODEL_SC) if e['op'][0] == 'get' else None]
+            want = sc_state(e['to']) + [v_model_to_real(e['reading'], INV_MODEL_SC) if e['op'][0] == 'get' else None] + [0]      # last: requests received by the backup clock
             if not e['to']['init']:
                 # before the first setting the stored seconds / millis are not observable: compare only what is
                 st = ['-', '-'] + st[2:]
                 want = ['-', '-'] + want[2:]
             if st != want:
                 hist = ' ; '.join(sc_op_line(x['op']) for x in seq)
-                chk.violation('systemclock:edge:%s%s' % (e['op'][0], '' if mode == 'sc' else ':via-loop'), ('' if mode == 'sc' else 'SystemClockLoop without reference clock, K = loop(): ') + 'phase %d base %d: after [%s] the code is in %s, the model in %s ([epoch, prev, init, lastSync, backupWrites, backupVal, reading])' % (
+                chk.violation('systemclock:edge:%s%s' % (e['op'][0], '' if mode == 'sc' else ':via-loop'), ('' if mode == 'sc' else 'SystemClockLoop without reference clock, K = loop(): ') + 'phase %d base %d: after [%s] the code is in %s, the model in %s ([epoch, prev, init, lastSync, backupWrites, backupVal, reading, requests to the backup clock])' % (
                     seq[0]['from']['ms'], BASES[n % len(BASES)], hist, st, want), {'phase': seq[0]['from']['ms'], 'base': BASES[n % len(BASES)], 'ops': [x['op'] for x in seq]})
                 break
     return len(scripts), nsteps
@@ -141,8 +141,10 @@ def sc_random_traces(rnd, n, length):
             r = rnd.random()
             if r < 0.5:
                 ops.append(('adv', rnd.choice([1, 10, 500, 999, 1000, 1001, 30000, 64535, 64536, rnd.randrange(1, 64537)])))
-            elif r < 0.85:
+            elif r < 0.72:
                 ops.append(('get', 0))
+            elif r < 0.85:
+                ops.append(('keep', 0))      # a poll that reads nothing (keepAlive() / loop())
             elif r < 0.97:
                 t += rnd.choice([100000, 100001, 186400, 250007])     # far ahead: never equal to the seconds the clock currently stores
                 ops.append(('set', t))
@@ -152,10 +154,10 @@ def sc_random_traces(rnd, n, length):
     return traces
 
 
-def sc_validate_traces(chk, exe, traces, work, tag):
-    scripts = [('S @ID@ %d %d' % (BASES[i % len(BASES)], ph), [('A %d' % a if o == 'adv' else 'G' if o == 'get' else 'T %s' % a) for o, a in ops])
+def sc_validate_traces(chk, exe, traces, work, tag, mode='sc'):
+    scripts = [('S @ID@ %d %d' % (BASES[i % len(BASES)], ph), [('A %d' % a if o == 'adv' else 'G' if o == 'get' else 'K' if o == 'keep' else 'T %s' % a) for o, a in ops])
                for i, (ph, ops) in enumerate(traces)]
-    res, crashes = run_driver(exe, 'sc', scripts)
+    res, crashes = run_driver(exe, mode, scripts)
     for c in crashes:
         chk.violation('systemclock:trace-crash', 'driver crashed rc=%s: %s' % (c[1], c[2][-400:]), {})
     out = []
